@@ -487,16 +487,108 @@ def run_bspline_span(tier="quick", seed=0):
     return res
 
 
+# ------------------------------------------------------------------------------------------ fit_spline_1d: bounded stand-in
+FIT_SPECS = [("plin", "spline_specs::PiecewiseLinear<double>", 1, 0, [], []),
+             ("fdc2", "spline_specs::FixedDerCubic<double, 2>", 3, 2, [2], [2]),
+             ("fdc1", "spline_specs::FixedDerCubic<double, 1>", 3, 2, [1], [1]),
+             ("md63", "spline_specs::MinDerivative<double, 6, 3, 3>", 6, 3, [1, 2], [1, 2]),
+             ("md52", "spline_specs::MinDerivative<double, 5, 2, 3>", 5, 3, [1, 2], [1, 2])]
+
+
+def fit_tu():
+    t = ('#include <math.h>\n#include <stdlib.h>\n#include <cmath>\n#include <vector>\n#include <smooth/spline/fit.hpp>\nusing namespace smooth;\n')
+    for nm, ty, K, inn, ld, rd in FIT_SPECS:
+        t += ('extern "C" void fit1d_%s(const double*dt,const double*dx,int n,double*out){ std::vector<double> a(dt,dt+n), b(dx,dx+n); '
+              'const Eigen::VectorXd x = fit_spline_1d(a, b, %s{}); for (Eigen::Index i = 0; i < x.size(); ++i) out[i] = x(i); }\n' % (nm, ty))
+    return t
+
+
+def bernstein_deriv(coefs, d, u):
+    """d-th derivative at u in {0, 1} of sum_k c_k B_{k,K}(u), exact rationals"""
+    c = [Fraction(x) for x in coefs]
+    K = len(c) - 1
+    fac = Fraction(1)
+    for r in range(d):
+        c = [c[i + 1] - c[i] for i in range(len(c) - 1)]
+        fac *= (K - r)
+    if not c:
+        return Fraction(0)
+    return fac * (c[0] if u == 0 else c[-1])
+
+
+def run_fit1d_standin(tier="quick", seed=0):
+    """[bounded] fit_spline_1d natively: the returned Bernstein coefficients satisfy every linear constraint of the specification
+    (interpolation from both sides, derivative continuity up to InnCnt in TIME units, boundary derivatives) to 1e-6 relative"""
+    import ctypes
+    from irsx import build
+    res = Results(PROP)
+    try:
+        so = build.compile_tu("c14_fit", fit_tu(), "so-gcc", (), ())
+        lib = ctypes.CDLL(so)
+    except Exception as e:
+        res.add(PROP + "/standin/fit_spline_1d/build", "error", "infra", 0.0, str(e)[-1500:])
+        return res
+    rng = random.Random(seed + 141)
+    reps = 30 if tier == "quick" else 300
+    for nm, ty, K, inn, ld, rd in FIT_SPECS:
+        worst, wit = 0.0, None
+        optimising = nm.startswith("md")
+        for _ in range(reps):
+            n = rng.randint(1, 12) if tier == "quick" else rng.randint(1, 39)
+            base = 10 ** rng.uniform(-2, 2)
+            dts = [base]
+            for i in range(1, n):
+                ratio = 10 ** rng.uniform(-1, 1) if optimising else 10 ** rng.uniform(-3, 3)
+                dts.append(min(1e2, max(1e-2, dts[-1] * ratio)))
+            if optimising:
+                # neighbouring intervals within a factor 10 (after clamping to [1e-2, 1e2] the ratio only shrinks)
+                pass
+            dxs = [rng.uniform(-1, 1) for _ in range(n)]
+            out = (ctypes.c_double * ((K + 1) * n))()
+            f = getattr(lib, "fit1d_" + nm)
+            f.restype = None
+            f((ctypes.c_double * n)(*dts), (ctypes.c_double * n)(*dxs), ctypes.c_int(n), out)
+            co = [[out[i * (K + 1) + k] for k in range(K + 1)] for i in range(n)]
+            if not all(math.isfinite(x) for row in co for x in row):
+                worst, wit = math.inf, dict(dt=dts, dx=dxs, what="non-finite coefficient")
+                break
+            scale = max(1.0, max(abs(x) for row in co for x in row))
+            errs = []
+            for i in range(n):
+                errs.append(("p%d(0)=0" % i, abs(float(bernstein_deriv(co[i], 0, 0))) / scale))
+                errs.append(("p%d(1)=dx" % i, abs(float(bernstein_deriv(co[i], 0, 1)) - dxs[i]) / scale))
+            for i in range(n - 1):
+                for d in range(1, inn + 1):
+                    a = float(bernstein_deriv(co[i], d, 1)) / dts[i] ** d
+                    b = float(bernstein_deriv(co[i + 1], d, 0)) / dts[i + 1] ** d
+                    errs.append(("d%d-continuity@knot%d" % (d, i + 1), abs(a - b) / max(abs(a), abs(b), scale / min(dts[i], dts[i + 1]) ** d * 1e-6 + 1e-300, 1e-300) if max(abs(a), abs(b)) > 0 else 0.0))
+            for d in ld:
+                errs.append(("left-d%d=0" % d, abs(float(bernstein_deriv(co[0], d, 0))) / scale))
+            for d in rd:
+                errs.append(("right-d%d=0" % d, abs(float(bernstein_deriv(co[-1], d, 1))) / scale))
+            w, e_ = max((e for e in errs), key=lambda t_: t_[1])[::-1]
+            if w > worst:
+                worst, wit = w, dict(dt=dts, dx=dxs, constraint=e_, rel_err=w)
+        ok = worst <= 1e-6
+        oid = "%s/standin/fit_spline_1d<%s>/linear-constraints-1e-6" % (PROP, ty)
+        res.add(oid, "bounded-ok" if ok else "bounded-fail", "bounded-standin", 0.0, "max relative constraint violation %.3g over %d data sets" % (worst, reps),
+                witness=None if ok else wit,
+                extra=None if ok else dict(confirmed=True, replay=write_replay(oid, dict(obligation=oid, witness=wit, function="fit1d_" + nm, tu_text=fit_tu(),
+                                                                                     reason="a linear constraint of the spline specification is violated by the returned coefficients"))))
+    return res
+
+
 def tasks(tier, seed=0):
     return [("c14", "run_dubins_select", (), dict(tier=tier, seed=seed, canary=False)),
             ("c14", "run_dubins_curve", (1,), dict(tier=tier, seed=seed)),
             ("c14", "run_dubins_curve", (3,), dict(tier=tier, seed=seed)),
             ("c14", "run_dubins_standin", (), dict(tier=tier, seed=seed)),
-            ("c14", "run_bspline_span", (), dict(tier=tier, seed=seed))]
+            ("c14", "run_bspline_span", (), dict(tier=tier, seed=seed)),
+            ("c14", "run_fit1d_standin", (), dict(tier=tier, seed=seed))]
 
 
 def prebuild(tier):
-    return [("c14_dubins", tu(), "ll", RULES, ()), ("c14_dubins", tu(), "so-gcc", RULES, ())]
+    return [("c14_dubins", tu(), "ll", RULES, ()), ("c14_dubins", tu(), "so-gcc", RULES, ()), ("c14_fit", fit_tu(), "so-gcc", (), ())]
 
 
 TRUSTED = ["A1 real-arithmetic reading (minimality, time span, t_max)", "A2 libm contracts", "A5 the length of a word is R a1 + d2 + R a3 (arc length = radius x angle)",
